@@ -308,11 +308,13 @@ Section TopCalls.
     is_type_error out = true /\
     is_ok out = accepts (sg_params (fb_sig b2)) c /\
     (match saw with Some _ => true | None => false end) = is_ok out /\
+    saw = forwarded (sg_params (fb_sig b2)) c /\
     (fwd = true -> out = call_func f c).
   Proof.
-    intro NDk. pose proof (level_call b2 gtop c G2 PT NDk) as L. unfold call_top, accepts.
+    intro NDk. pose proof (level_call b2 gtop c G2 PT NDk) as L. unfold call_top, accepts, forwarded.
+    assert (IVT : b_inv gtop = inv_of_params (sg_params (fb_sig b2))) by (destruct PT; assumption).
     destruct (bind (sg_params (fb_sig b2)) c) as [env|e] eqn:B.
-    - destruct L as [L1 [c' [EV [B' ND']]]]. rewrite L1, EV.
+    - destruct L as [L1 [c' [EV [B' ND']]]]. rewrite L1, EV. rewrite IVT in EV. rewrite EV.
       destruct fwd eqn:F.
       + destruct (PLAIN eq_refl) as [ES PB].
         assert (CF : forall x, call_func f x = bind (sg_params (fb_sig b2)) x).
@@ -336,8 +338,8 @@ Proof.
   intros WF G2 PT PL KF. induction calls as [|c r IH]; intro ND; [reflexivity|].
   inversion ND as [|c0 r0 NDc NDr]; subst c0 r0. cbn [map calls_ok].
   pose proof (model_call_ok f gtop below b2 fwd WF G2 PT PL c NDc) as H.
-  destruct (call_top f (gtop :: below) fwd c) as [saw out]. destruct H as [H1 [H2 [H3 H4]]].
-  rewrite H1, H2, bool_eqb_refl, H3, H2, bool_eqb_refl, (IH NDr), KF. simpl.
+  destruct (call_top f (gtop :: below) fwd c) as [saw out]. destruct H as [H1 [H2 [H3 [H5 H4]]]].
+  rewrite H1, H2, bool_eqb_refl, H3, H2, bool_eqb_refl, (IH NDr), KF, <- H5, (option_eqb_refl _ call_eqb_refl). simpl.
   destruct fwd.
   - rewrite (H4 eq_refl), rb_eqb_refl. destruct (plain k); reflexivity.
   - rewrite andb_false_r. reflexivity.
